@@ -338,7 +338,7 @@ Lemma ep_breaks_zero (means : list R) fixed (liks : list (R * R)) edges cpss (ob
   nth 0 ob' 0 = 0 /\ nth 0 rb 0 = 0 /\ length ob' = length rb /\
   exists ob, rescale_loop RNum liks edges fixed cpss means None = Some (x', Some (ob, rb)).
 Proof.
-  unfold ep_rescale_breaks. intros H Hcp Hm.
+  unfold ep_rescale_breaks, recover_breaks. intros H Hcp Hm.
   destruct (rescale_loop RNum liks edges fixed cpss means None) as [[x1 [[ob rb1]|]]|] eqn:El;
     try discriminate.
   match type of H with match ?p with _ => _ end = _ => destruct p as [ob1|] eqn:Ep end; [|discriminate].
